@@ -111,8 +111,20 @@ func redirects(data []byte, cfg gen.Cfg) []gen.Redirect {
 		}
 		for _, e := range b.Objs() {
 			if e.PosLen > 0 {
-				out = append(out, gen.Redirect{PosOff: e.PosOff, PosLen: e.PosLen, Targets: fit(e.PosLen)})
+				r := gen.Redirect{PosOff: e.PosOff, PosLen: e.PosLen, Targets: fit(e.PosLen)}
+				if e.CountOff > 0 {
+					r.Extra = append(r.Extra, e.CountOff)
+				}
+				out = append(out, r)
 			}
+		}
+		// the key varints of the first record of every uncompressed block
+		if b.Type != 'g' {
+			first := int(b.Off) + 4
+			if b.Off == 0 {
+				first = cfg.HeaderSize() + 4
+			}
+			out = append(out, gen.Redirect{PosOff: first, PosLen: 0, Extra: []int{first + 1}})
 		}
 	}
 	return out
